@@ -479,6 +479,79 @@ def replaceChild (w : W) (label : String) (new : Child) : W × Res :=
       if (w'.panel .inputs).isSome && (w'.panel .outputs).isSome then (w', .ok)
       else ({ w with children := rest ++ [old], g := g1 }, .typeErr)
 
+/-! ## Re-labelling a held child (`wf.add_child(child, label=…)`, `wf[label] = child`, `wf.label = child`) -/
+
+/-- the label argument: a string, a string that is an attribute or method of the workflow
+(`label in self.__dir__()`, not a child), or something that is no string at all -/
+inductive LabelArg
+  | str (s : String)
+  | attr (s : String)
+  | nonStr
+  deriving Repr, DecidableEq
+
+def hasDelim (s : String) : Bool := s.toList.contains '/'
+
+/-- `LexicalParent.add_child(child, label)` for a child the workflow already holds under `old`.
+`popFirst = false` is the code as it is: the label setter of the child validates the new label
+BEFORE the stale entry is popped from `children`; `popFirst = true` is the variant that pops
+first (what a refused label then leaves behind).  An accepted re-label files the child at the
+END of `children` (`children.inv.pop(child); children[label] = child`). -/
+def relabelChild (popFirst : Bool) (w : W) (old : String) (new : LabelArg) : W × Res :=
+  match w.children.find? (fun d => d.label == old) with
+  | none => (w, .refused)
+  | some c =>
+    let rest := w.children.filter (fun d => !(d.label == old))
+    match new with
+    | .attr _ => (w, .refused)                       -- `_get_unique_label`: AttributeError
+    | .nonStr => (if popFirst then { w with children := rest } else w, .typeErr)
+    | .str s =>
+      if s == old then (w, .ok)                      -- already at this label
+      else if w.children.any (fun d => d.label == s) then (w, .refused)   -- strict naming: AttributeError
+      else if hasDelim s then (if popFirst then { w with children := rest } else w, .valueErr)
+      else ({ w with children := rest ++ [{ c with label := s }] }, .ok)
+
+/-! ## A pull of a child (`child.pull()`, `child()`): `Node.run_data_tree` -/
+
+/-- one step of the upstream closure: children with an output connected to an input of a listed child -/
+def upstreamStep (w : W) (labs : List String) : List String :=
+  let ins := (w.children.filter (fun c => labs.contains c.label)).flatMap (fun c => c.ins.map Prod.snd)
+  let feeding := w.children.filter fun c => c.outs.any fun o => ins.any fun i => (w.g.conns i).contains o.2
+  labs ++ (feeding.map (·.label)).filter (fun l => !labs.contains l)
+
+def closeUp (w : W) : Nat → List String → List String
+  | 0, labs => labs
+  | n + 1, labs => closeUp w n (upstreamStep w labs)
+
+/-- `get_nodes_in_data_tree(child)`, restricted to the children of the workflow -/
+def dataTree (w : W) (l : String) : List String := closeUp w w.children.length [l]
+
+/-- `node.label + str(id(node))` (the identity of a node is that of its first channel) -/
+def tmpLabel (c : Child) : String := c.label ++ "#" ++ toString (c.ids.headD 0)
+
+/-- the nodes of the data tree get their temporary unique labels … -/
+def labelTemp (tree : List String) (cs : List Child) : List Child :=
+  cs.map fun c => if tree.contains c.label then { c with label := tmpLabel c } else c
+
+/-- … and every NODE gets the label it had before (`label_map`, by node) -/
+def labelBack : List Child → List Child → List Child
+  | o :: os, c :: cs => { c with label := o.label } :: labelBack os cs
+  | _, cs => cs
+
+/-- a pull on the child `l`: temporary labels, the upstream run (its effect on values and whether
+it raised are observed: C01/C06), then — `restoreOnFailure = true` is the code as it is, a
+`finally` — the labels are put back; connections and starting nodes likewise (C11).  Nothing of
+the structure the workflow IO is built from has changed afterwards. -/
+def pullChild (restoreOnFailure : Bool) (w : W) (l : String) (fails : Bool) : W :=
+  if !(w.children.any fun c => c.label == l) then w else
+  let tmp := labelTemp (dataTree w l) w.children
+  if fails && !restoreOnFailure then { w with children := tmp }
+  else { w with children := labelBack w.children tmp }
+
+/-- the run-return variant that leaves out outputs still holding the `NOT_DATA` placeholder
+(NOT what the code does; see `C15_return_keys`) -/
+def runReturnSkipND (w : W) : Option (List (String × Val)) :=
+  (runReturn w).map fun r => r.filter fun e => e.2 != "ND"
+
 inductive Op
   | add (c : Child)
   | remove (label : String)
@@ -499,6 +572,10 @@ inductive Op
   | edit (s : Side) (e : Edit)
   /-- `wf.replace_child(label, new)` -/
   | replace (label : String) (new : Child)
+  /-- re-labelling a held child through the workflow -/
+  | relabel (old : String) (new : LabelArg)
+  /-- `child.pull()` / `child()`; `fails` = the upstream run raised -/
+  | pull (label : String) (fails : Bool)
   deriving Repr
 
 def step (w : W) : Op → W × Res
@@ -521,6 +598,8 @@ def step (w : W) : Op → W × Res
   | .edit .inputs e => let r := editStored w.imap e; ({ w with imap := r.1 }, r.2)
   | .edit .outputs e => let r := editStored w.omap e; ({ w with omap := r.1 }, r.2)
   | .replace l c => replaceChild w l c
+  | .relabel o n => relabelChild false w o n
+  | .pull l f => (pullChild true w l f, .ok)
 
 /-- `wf.inputs` / `wf.outputs` as the code runs it: the getter cleans the stored map (state
 change; its exception escapes), then `_build_io` reads it -/
